@@ -5,6 +5,7 @@ import builtins
 import contextlib
 import io
 import math
+import sys
 
 import z3
 
@@ -716,8 +717,78 @@ def run_client_params(unit):
         yield log.result()
 
 
+# ---- entry points: a rejected input produces an error that names the parameter AND no result ------------------------------------------
+def run_entry_points(unit):
+    """the readers raise (decided symbolically in the other layers); here the real entry points around them - HipRaXClient -> hip_ra_x.main(),
+    GeophiresXClient -> GEOPHIRESv3.main() - are run with one out-of-range value each (just below Min / just above Max of several
+    parameters per family, enumerated): the call must fail, the error must name the parameter, and no result file may be left."""
+    import math as _math
+    import os as _os
+    import tempfile as _tf
+    from geophires_x_client import GeophiresXClient, GeophiresInputParameters
+    import hip_ra_x as HX
+    from hip_ra import HipRaInputParameters
+    fams = []
+    o, _, _ = _fresh('hip_ra_x.hip_ra_x', 'HIP_RA_X')
+    hip_base = {'Reservoir Temperature': 250.0, 'Rejection Temperature': 60.0, 'Reservoir Porosity': 10.0, 'Reservoir Area': 55.0, 'Reservoir Thickness': 0.25}
+    fams.append(('HipRaXClient -> hip_ra_x.main()', o, hip_base, ['Reservoir Porosity', 'Reservoir Temperature', 'Reservoir Area', 'Recoverable Fluid Factor'],
+                 lambda d: HX.HipRaXClient().get_hip_ra_result(HipRaInputParameters(d)), lambda ip_or_d: None))
+    r, _, _ = gx.make_source('geophires_x.Reservoir', 'Reservoir')
+    g_base = {'Reservoir Model': 4, 'Reservoir Depth': 3, 'Gradient 1': 50, 'End-Use Option': 2, 'Power Plant Type': 9, 'Plant Lifetime': 2, 'Time steps per year': 1,
+              'Print Output to Console': 0}
+    fams.append(('GeophiresXClient -> GEOPHIRESv3.main()', r, g_base, ['Reservoir Depth', 'Maximum Temperature', 'Surface Temperature', 'Reservoir Porosity'], None, None))
+    for which, obj, base, pnames, call, _ in fams:
+        cfg = {'layer': 'entry-point', 'entry': which}
+        log = harness.UnitLog(cfg)
+        for pname in pnames:
+            prm = obj.ParameterDict.get(pname)
+            if prm is None or not hasattr(prm, 'Min'):
+                continue
+            for side, val in (('just above Max', _math.nextafter(float(prm.Max), _math.inf)), ('just below Min', _math.nextafter(float(prm.Min), -_math.inf))):
+                d = dict(base)
+                d[pname] = val
+                log['paths'] += 1
+                log['reachable'] += 1
+                cwd, argv = _os.getcwd(), sys.argv
+                err, out_path = None, None
+                before = set(_os.listdir(_tf.gettempdir()))
+                try:
+                    with contextlib.redirect_stdout(io.StringIO()), contextlib.redirect_stderr(io.StringIO()):
+                        if call is not None:
+                            res = call(d)
+                        else:
+                            ip = GeophiresInputParameters(d)
+                            out_path = str(ip.get_output_file_path())
+                            res = GeophiresXClient(enable_caching=False).get_geophires_result(ip)
+                except BaseException as e:      # noqa: B902 (SystemExit included)
+                    err = e
+                finally:
+                    _os.chdir(cwd)
+                    sys.argv = argv
+                new_out = [f for f in set(_os.listdir(_tf.gettempdir())) - before if f.endswith('.out')]
+                for f in set(_os.listdir(_tf.gettempdir())) - before:
+                    if f.startswith(('geophires-', 'hip-ra-')):
+                        try:
+                            _os.unlink(_os.path.join(_tf.gettempdir(), f))
+                        except OSError:
+                            pass
+                checks = [(f'{which}: "{pname}" {side} is rejected (the call fails)', err is not None),
+                          (f'{which}: the error for "{pname}" {side} names the parameter', err is not None and pname in (str(err) + str(getattr(err, '__cause__', '')))),
+                          (f'{which}: no result is produced for "{pname}" {side}', not new_out)]
+                for name, ok in checks:
+                    log['obligations'] += 1
+                    if ok:
+                        log['discharged'] += 1
+                    else:
+                        log['cex'].append({'obligation': name, 'finding': None, 'config': cfg, 'reproduced': True, 'inputs': {pname: repr(val)},
+                                           'detail': {'error': repr(err)[:200] if err else None, 'result files left': new_out[:3]},
+                                           'how': 'the real entry point run with the enumerated out-of-range value', 'attempts': []})
+        log['samples'].append({'entry': which, 'parameters': pnames, 'values': ['nextafter(Max, +inf)', 'nextafter(Min, -inf)']})
+        yield log.result()
+
+
 def units(tier, seed):
-    us = [{'layer': 'hip-calculate'}, {'layer': 'client-params'}]
+    us = [{'layer': 'hip-calculate'}, {'layer': 'client-params'}, {'layer': 'entry-point'}]
     srcs = list(gx.SOURCE_CLASSES) + [('hip_ra_x.hip_ra_x', 'HIP_RA_X')]
     for modn, clsn in srcs:
         us.append({'layer': 'reader', 'module': modn, 'cls': clsn})
@@ -729,7 +800,9 @@ def units(tier, seed):
 
 
 def run_unit(unit):
-    if unit['layer'] == 'client-params':
+    if unit['layer'] == 'entry-point':
+        yield from run_entry_points(unit)
+    elif unit['layer'] == 'client-params':
         yield from run_client_params(unit)
     elif unit['layer'] == 'hip-calculate':
         yield from run_hip_used(unit)
@@ -743,7 +816,7 @@ def replay(cex):
     cfg = cex['config']
     srcs = dict((c, m) for m, c in list(gx.SOURCE_CLASSES) + [('hip_ra_x.hip_ra_x', 'HIP_RA_X')])
     modn = srcs[cfg['class']]
-    if cfg['layer'] in ('units', 'hip-calculate', 'client-params'):
+    if cfg['layer'] in ('units', 'hip-calculate', 'client-params', 'entry-point'):
         raise NotImplementedError
     val = cex['inputs'].get('v', cex['inputs'].get('k'))
     if isinstance(val, str):
